@@ -6,5 +6,6 @@ CONSTANTS BS0 = 8
  Gen = FALSE
  Toggles = TRUE
 INVARIANT StoreOK
+INVARIANT LapoutOK
 INVARIANT RetInsideCur
 CHECK_DEADLOCK FALSE
